@@ -391,3 +391,106 @@ Section Flags.
     apply IH. intros p' l'. rewrite flags_do_op. apply fl_op_ext. exact E.
   Qed.
 End Flags.
+
+(* ---------------------------------------------------------------- the controller's schedule keeps every entry valid *)
+Section ScheduleValid.
+  Variable P : nat.
+  Notation runf ops F := (fold_left fl_op ops F).
+  Definition Vk (k : nat) (F : nat -> nat -> bool) : Prop := forall p l, p < P -> l <= k -> F p l = true.
+
+  Lemma runf_app a b F : runf (a ++ b) F = runf b (runf a F).
+  Proof. apply fold_left_app. Qed.
+
+  (* operations that never invalidate levels 0..k *)
+  Definition harmless (k : nat) (o : op) : Prop :=
+    match o with Prolong _ l => S l <= k \/ k < l | _ => True end.
+
+  Lemma fl_op_Vk k F o : harmless k o -> Vk k F -> Vk k (fl_op F o).
+  Proof.
+    intros Hh HV p l Hp Hl. destruct o as [p0 l0|p0 l0|p0 l0|p0 l0]; cbn [fl_op harmless] in *.
+    - apply HV; assumption.
+    - destruct p0 as [|q]; [apply HV; assumption|].
+      destruct (Nat.eqb_spec p (S q)) as [->|]; cbn [andb]; [|apply HV; assumption].
+      destruct (Nat.eqb_spec l l0) as [->|]; [|apply HV; assumption].
+      rewrite (HV (S q) l0 Hp Hl), (HV q l0 ltac:(lia) Hl). reflexivity.
+    - destruct (Nat.eqb_spec p p0) as [->|]; cbn [andb]; [|apply HV; assumption].
+      destruct (Nat.eqb_spec l (S l0)) as [->|]; [|apply HV; assumption].
+      apply HV; [assumption | lia].
+    - destruct (Nat.eqb_spec p p0) as [->|]; cbn [andb]; [|apply HV; assumption].
+      destruct (Nat.eqb_spec l l0) as [->|]; [|apply HV; assumption].
+      destruct Hh as [Hh|Hh]; [|lia].
+      rewrite (HV p0 l0 Hp Hl), (HV p0 (S l0) Hp Hh). reflexivity.
+  Qed.
+
+  Lemma runf_Vk k ops : Forall (harmless k) ops -> forall F, Vk k F -> Vk k (runf ops F).
+  Proof.
+    induction ops as [|o ops IH]; intros Hh F HV; cbn [fold_left]; [exact HV|].
+    inversion Hh as [|? ? Ho Hops]; subst. apply IH; [exact Hops | apply fl_op_Vk; assumption].
+  Qed.
+
+  Lemma for_steps_harmless k n f : (forall p, Forall (harmless k) (f p)) -> Forall (harmless k) (for_steps n f).
+  Proof. intros H. unfold for_steps. apply Forall_flat_map. apply Forall_forall. intros p _. apply H. Qed.
+  Lemma repeat_harmless k n ops : Forall (harmless k) ops -> Forall (harmless k) (repeat_ops n ops).
+  Proof. intros H. induction n as [|n IH]; cbn [repeat_ops]; [constructor | apply Forall_app; split; assumption]. Qed.
+  Lemma comm_sweep_harmless k n l : Forall (harmless k) (comm_all n l ++ sweep_all n l).
+  Proof. apply Forall_app; split; apply for_steps_harmless; intros p; repeat constructor. Qed.
+
+  (* restricting every step from level k makes level k+1 valid *)
+  Lemma restrict_all_Vk k : forall F, Vk k F -> Vk (S k) (runf (for_steps P (fun p => [Restrict p k])) F).
+  Proof.
+    intros F HV.
+    assert (G : forall n F', Vk k F' -> (forall p, p < P -> P - n <= p -> F' p (S k) = true \/ True) ->
+                forall j, j + n = P ->
+                (forall p, p < j -> F' p (S k) = true) ->
+                Vk k (runf (flat_map (fun p => [Restrict p k]) (seq j n)) F') /\
+                (forall p, p < P -> runf (flat_map (fun p => [Restrict p k]) (seq j n)) F' p (S k) = true)).
+    { induction n as [|n IH]; intros F' HV' _ j Hj Hdone; cbn [seq flat_map fold_left app].
+      - split; [exact HV'|]. intros p Hp. apply Hdone. lia.
+      - apply (IH (fl_op F' (Restrict j k))).
+        + apply fl_op_Vk; [exact I | exact HV'].
+        + intros; right; exact I.
+        + lia.
+        + intros p Hp. cbn [fl_op]. destruct (Nat.eqb_spec p j) as [->|Hne]; cbn [andb].
+          * rewrite Nat.eqb_refl. apply HV'; lia.
+          * apply Hdone. lia. }
+    destruct (G P F HV (fun _ _ _ => or_intror I) 0 ltac:(lia) ltac:(intros; lia)) as [HVk Hnew].
+    intros p l Hp Hl. destruct (Nat.eq_dec l (S k)) as [->|Hne]; [apply Hnew; exact Hp | apply HVk; [exact Hp | lia]].
+  Qed.
+
+  (* it_down after level 0 has been restricted: levels a .. a+n-1 are swept and restricted in turn *)
+  Lemma down_levels_Vk nsw : forall n a F, Vk a F ->
+    Vk (a + n) (runf (flat_map (fun l => repeat_ops (nsw l) (comm_all P l ++ sweep_all P l)
+                                         ++ for_steps P (fun p => [Restrict p l])) (seq a n)) F).
+  Proof.
+    induction n as [|n IH]; intros a F HV; cbn [seq flat_map fold_left].
+    - rewrite Nat.add_0_r. exact HV.
+    - rewrite runf_app, runf_app. replace (a + S n) with (S a + n) by lia. apply IH.
+      apply restrict_all_Vk. apply runf_Vk; [apply repeat_harmless, comm_sweep_harmless | exact HV].
+  Qed.
+
+  Theorem pfasst_iteration_valid L nsw jacobi F :
+    Vk 0 F -> Vk (L - 1) (runf (pfasst_iteration P L nsw jacobi) F).
+  Proof.
+    intros HV. unfold pfasst_iteration, iteration_body. rewrite runf_app.
+    assert (H1 : Vk 0 (runf (it_check_ops P) F)).
+    { apply runf_Vk; [|exact HV]. apply for_steps_harmless; intros p; repeat constructor. }
+    destruct (Nat.ltb_spec 1 L) as [HL|HL].
+    - rewrite !runf_app.
+      (* it_down *)
+      assert (H2 : Vk (L - 1) (runf (it_down_ops P L nsw) (runf (it_check_ops P) F))).
+      { unfold it_down_ops. rewrite runf_app. replace (L - 1) with (1 + (L - 2)) by lia.
+        apply down_levels_Vk. apply restrict_all_Vk. exact H1. }
+      (* it_coarse, it_up, it_fine never invalidate levels 0..L-1 *)
+      apply runf_Vk; [apply repeat_harmless, comm_sweep_harmless|].
+      apply runf_Vk.
+      { unfold it_up_ops. apply Forall_flat_map. apply Forall_forall. intros l Hl. apply in_rev, in_seq in Hl.
+        apply Forall_app; split.
+        - apply for_steps_harmless; intros p. constructor; [|constructor]. cbn [harmless]. left. lia.
+        - destruct (Nat.ltb 0 (l - 1)); [apply repeat_harmless, comm_sweep_harmless | constructor]. }
+      apply runf_Vk; [apply for_steps_harmless; intros p; repeat constructor | exact H2].
+    - replace (L - 1) with 0 by lia.
+      destruct jacobi.
+      + apply runf_Vk; [apply repeat_harmless, comm_sweep_harmless | exact H1].
+      + apply runf_Vk; [apply for_steps_harmless; intros p; repeat constructor | exact H1].
+  Qed.
+End ScheduleValid.
